@@ -9,7 +9,10 @@ Legs (DESIGN.md section 4, C13):
      definitions syntax; every text is loaded in an isolated worker (catch_unwind, time limit, 8 MiB stack).
   b  synthetic alias chains and cycles of length 10 .. 4 000 through units, prefixes, quantities and substance
      properties (deep and shallow name orders), zero / negative / dimension-mismatched substance properties;
-     chains of 10 000 and 20 000 as probes beyond the realistic sizes the property speaks of.
+     chains of 10 000 and 20 000 as probes beyond the realistic sizes the property speaks of;
+     chemical formulas: units, substance properties and queries written as formulas (`H2O`, `OH`, `2H`, `X2`, ...)
+     over element substances with `!symbol`, in databases whose base units have other names than kg / mol and
+     whose elements give molar_mass in another dimensionality, inverted, as a constant, as zero, or not at all.
   c  the bundled files under seeded line / token deletion, duplication and swapping; currency JSON truncated at
      every byte of the first 300 and at 200 random offsets, type-confused fields; mutated date pattern files.
 Every recorded outcome is a line of a trace judged by Trace_Load.tla: Ok, or Err with messages, and a context that
@@ -239,8 +242,57 @@ def chain_text(kind, n, deep, cyclic):
     return "".join(out), head
 
 
+FORMULA_BASES = {
+    "kg-mol": ("kg !kilogram\nmol !mole\n", "kg", "mol"),
+    "g-mol": ("g !gram\nmol !mole\n", "g", "mol"),
+    "kg-n": ("kg !kilogram\nn !\n", "kg", "n"),
+    "a-b": ("a !\nb !\n", "a", "b"),
+    "mol-kg": ("mol !\nkg !\n", "mol", "kg"),                    # the names the code expects, the other way round
+    "kg-mol-prefixed": ("kg !kilogram\nmol !mole\nk- 1000\ng 1|1000 kg\n", "g", "kmol"),
+}
+FORMULA_MOLAR = {
+    # element number i (1, 2) -> the lines inside its `{ }`; X mass unit, Y amount unit
+    "per-amount": lambda i, X, Y: "  molar_mass mass %d %s / amount 1000 %s\n" % (i * 15 - 14, X, Y),
+    "inverted": lambda i, X, Y: "  molar_mass amount 1000 %s / mass %d %s\n" % (Y, i * 15 - 14, X),
+    "constant": lambda i, X, Y: "  molar_mass const mm%d %d\n" % (i, i * 15 - 14),
+    "mass-only": lambda i, X, Y: "  molar_mass const mm%d %d %s\n" % (i, i * 15 - 14, X),
+    "other-dimension": lambda i, X, Y: "  molar_mass mass %d %s^2 / amount %s\n" % (i * 15 - 14, X, Y),
+    "missing": lambda i, X, Y: "  weight const ww%d %d %s\n" % (i, i * 15 - 14, X),
+    "mixed": lambda i, X, Y: ("  molar_mass mass 1 %s / amount 1000 %s\n" % (X, Y)) if i == 1 else ("  molar_mass mass 16 %s / amount %s^2\n" % (X, Y)),
+    "second-missing": lambda i, X, Y: ("  molar_mass mass 1 %s / amount 1000 %s\n" % (X, Y)) if i == 1 else "  weight const ww 3\n",
+    "zero": lambda i, X, Y: "  molar_mass mass 0 %s / amount %s\n" % (X, Y),
+    "negative": lambda i, X, Y: "  molar_mass mass -%d %s / amount %s\n" % (i, X, Y),
+    "empty": lambda i, X, Y: "",
+}
+FORMULAS = ["H", "O", "H2", "H2O", "OH", "HOH", "O2H2O", "H2O2H2", "X2", "HX", "Hx2", "H0", "2H", "H2O3X", "H99999999999", "H4294967296",
+            "H4294967295O4294967295", "h2o", "H-2"]
+
+
+def formula_texts():
+    """(key, text, probes): element substances hy / ox with symbols H / O, one formula-defined unit (its name sorting before
+    or after the elements), or the formula inside a substance property; the formula is also asked as a query"""
+    for bk, (btext, X, Y) in FORMULA_BASES.items():
+        for mk, lines in FORMULA_MOLAR.items():
+            elements = "".join("!symbol %s %s\n%s {\n%s}\n" % (n, sym, n, lines(i, X, Y)) for i, (n, sym) in enumerate((("hy", "H"), ("ox", "O")), 1))
+            for f in FORMULAS:
+                for where in ("before", "after", "property"):
+                    if where == "property":
+                        use = "zs {\n  pp const cc 2 %s\n}\n" % f
+                        name = "zs"
+                    else:
+                        name = "aq" if where == "before" else "zz"
+                        use = "%s %s\n" % (name, f)
+                    yield ("%s:%s:%s:%s" % (bk, mk, f, where), btext + elements + use + "x 3 %s\n" % X,
+                           ["x", name, f, "molar_mass of " + f, "molar_mass of %s -> %s/%s" % (name, X, Y), "2 %s + %s" % (f, f), "%s %s" % (X, f)])
+
+
 def leg_chains(run, thorough):
     leg = Leg(run, "chain")
+    for key, text, probes in formula_texts():
+        bk, mk, f, where = key.split(":")
+        leg.add({"defs": text, "probes": probes},
+                {"family": "formula", "bases": bk, "molar_mass": mk, "formula": f, "where": where, "text": text, "n_ge_10000": False},
+                nontrivial="formula:" + key)
     for kind in ("unit", "prefix", "quantity", "subst"):
         for n in (10, 100, 1000, 2000, 4000):
             for deep in (True, False):
